@@ -67,7 +67,7 @@ func c14Emit(c *Ctx, cfg wcfg, data []byte, parts []int, readFrom bool, srcMode 
 		} else {
 			p := 0
 			for _, k := range parts {
-				if _, err := w.Write(data[p : p+k]); err != nil {
+				if _, err := writeRecycled(w, data[p:p+k]); err != nil {
 					failed = err
 					return
 				}
